@@ -6,6 +6,7 @@ import (
 	"encoding/hex"
 	"encoding/json"
 	"fmt"
+	"math"
 	"math/rand/v2"
 	"strings"
 	"testing"
@@ -22,8 +23,8 @@ func c01Reported(e *mocrelay.Event) bool {
 	return ok && err == nil
 }
 
-var c01Kinds = []int64{0, 1, 3, 4, 5, 7, 1000, 9999, 10000, 10002, 19999, 20000, 22242, 29999, 30000, 30023, 39999, 40000, 65535}
-var c01Times = []int64{0, 1, 1 << 31, 1<<31 - 1, 1<<31 + 1, 1 << 32, 1 << 53, 1700000000, 1693157791}
+var c01Kinds = []int64{0, 1, 3, 4, 5, 7, 1000, 9999, 10000, 10002, 19999, 20000, 22242, 29999, 30000, 30023, 39999, 40000, 65535, 65536, 1<<53 + 1, math.MaxInt64, -1}
+var c01Times = []int64{0, 1, 1 << 31, 1<<31 - 1, 1<<31 + 1, 1 << 32, 1 << 53, 1700000000, 1693157791, 1<<53 + 1, 1 << 62, math.MaxInt64 - 1, math.MaxInt64, -1, math.MinInt64, 1700000000123}
 
 func c01Event(r *rand.Rand, content string) *mocrelay.Event {
 	e := &mocrelay.Event{
